@@ -199,3 +199,73 @@ def static_compile(case, glyphsets=True):
     rec["ret"] = ret
     rec["_bytes"] = project.sha_bytes(data)
     return rec
+
+
+def resolved_form(glyphs, name):
+    """Abstract glyph `name` of the abstract glyph set `glyphs` with its components replaced by contours (input
+    construction only: a point-compatible contour form of a composite, for masters that draw what others compose)."""
+    from fontTools.pens.filterPen import DecomposingFilterPointPen
+
+    font = absfont.build_font({"glyphs": glyphs}, "ufoLib2")
+    from ufoLib2.objects import Glyph
+
+    out = Glyph(name)
+    g = font[name]
+    out.width = g.width
+    pen = DecomposingFilterPointPen(out.getPointPen(), font, reverseFlipped=True)
+    g.drawPoints(pen)
+    for a in g.anchors:
+        out.appendAnchor({"name": a.name, "x": a.x, "y": a.y})
+    res = absfont.abs_glyph(out)
+    res["u"] = list(glyphs[name].get("u", []))
+    return res
+
+
+def interp_cff_compile(case):
+    """case: {cid, lib, masters: [abstract glyph sets], kwargs}; compileInterpolatableOTFsFromDS; returns one
+    PipelineTrace record per master (no hook events: the final clauses are evaluated against that master's source)."""
+    import copy
+
+    import ufo2ft
+
+    from . import dsbuild
+
+    lib = case.get("lib", "ufoLib2")
+    nm = len(case["masters"])
+    locs = [0, 8] if nm == 2 else [0, 4, 8]
+    fam_masters = []
+    for k, gs in enumerate(case["masters"]):
+        ufo = {"glyphs": copy.deepcopy(gs), "order": sorted(gs), "glyphNames": sorted(gs),
+               "info": {"unitsPerEm": 1000, "ascender": 800, "descender": -200, "familyName": "Interp", "styleName": f"M{k}"}}
+        fam_masters.append({"loc": {"Weight": locs[k]}, "ufo": ufo, "name": f"M{k}"})
+    family = {"axes": [{"name": "Weight", "tag": "wght", "min": 0, "default": 0, "max": 8}], "masters": fam_masters, "lib": {}}
+    ds = dsbuild.build_designspace(family, lib)
+    kwargs = dict(case.get("kwargs") or {})
+    kw = dict(kwargs)
+    kw["useProductionNames"] = False
+    srcs = [absfont.abs_glyphset({g.name: g for g in s.font}) for s in ds.sources]
+    recs = []
+    try:
+        outs = [s.font for s in ufo2ft.compileInterpolatableOTFsFromDS(ds, **kw).sources]
+        err = ""
+    except Exception as e:  # noqa
+        outs, err = [None] * nm, type(e).__name__
+    for k, (src, otf) in enumerate(zip(srcs, outs)):
+        rec = {"tid": f"{case['cid']}-m{k}", "flavor": "cff", "src": src, "master": k, "events": [],
+               "opts": {"skip": [], "tolS": _tol_scaled(kwargs.get("roundTolerance")), "inplace": False, "flatten": False,
+                        "convertCubics": True, "reverse": True, "expectErr": "", "tolMilli": 0}}
+        if err:
+            rec["ret"] = {"err": err}
+            recs.append(rec)
+            continue
+        try:
+            data, f2 = project.save_reload(otf)
+            rec["ret"] = {"order": f2.getGlyphOrder(), "adv": project.advances(f2), "outline": project.cff_outlines(f2)}
+            rec["_bytes"] = project.sha_bytes(data)
+        except absfont.Inexact as e:
+            recs.append({"tid": rec["tid"], "skip": True, "why": f"inexact output: {e}"})
+            continue
+        except Exception as e:  # noqa
+            rec["ret"] = {"err": "Save:" + type(e).__name__}
+        recs.append(rec)
+    return recs
